@@ -62,6 +62,13 @@ def run(ctx):
             if os.path.basename(r) in QUICK_REF and os.path.dirname(r).endswith("testdata"):
                 cases.append({"file": r, "name": os.path.basename(r), "classes": ["field", "pointer", "random"],
                               "full": 1024, "stride": 4099, "win": 48, "nrand": 400})
+    # inputs that once broke a reader (found by the thorough tier): replayed on every run
+    with open(os.path.join(H.ROOT, "notes", "c07_regression_inputs.json")) as f:
+        for r in json.load(f)["inputs"]:
+            fp = os.path.join(ctx.repo, r["file"])
+            if os.path.exists(fp):
+                cases.append({"file": fp, "name": os.path.relpath(fp, os.path.join(ctx.repo, "testdata")), "classes": [], "muts": r["muts"],
+                              "full": 0, "stride": 4099, "win": 48, "nrand": 0})
     path = ctx.write_cases(cases)
     trace = os.path.join(ctx.scr, "trace.ndjson")
     argv = [ctx.h5v, "c07", "-mode", "run", "-in", path, "-out", trace, "-dir", ctx.files, "-seed", str(ctx.seed), "-workers", str(ctx.workers)]
